@@ -3,6 +3,7 @@ import OmplModel.Proofs.PhsMeasure
 import OmplModel.Proofs.PhsBridge
 import OmplModel.Proofs.PhsLogic
 import OmplModel.Proofs.PhsCap
+import OmplModel.Proofs.PhsState
 /-!
 # C15 — informed sampling returns only, and all of, the states that can still help
 
@@ -311,6 +312,37 @@ theorem direct_success_below_cost_by_retest {ρ : Type} (s : Sampler ℝ) (inB :
     (s.update c).isInAny (s.sample2 inB true c ds cur).2.st.1 = true ∧
     ∃ h, (s.update c).hcost (s.sample2 inB true c ds cur).2.st.1 = some h ∧ h < c :=
   PhsCap.direct_success_cost_below_retest s inB c ds cur hbase hall hf
+
+
+/-! ## The PHS state is a function of the current diameter [AF] -/
+
+section state
+variable {α : Type} [Num α]
+
+/-- **`phs_state_is_function_of_current_diameter`**: whatever sequence `cs` of successful
+`setTransverseDiameter` calls an object went through, a final call with `d` gives exactly the object
+a FRESH `p` gives when set to `d` (same throw behaviour, and as whole records when it succeeds) — hence
+`transform`, `getPathLength`, `isInPhs`, `isOnPhs` and the cached `getPhsMeasure` depend on the current
+diameter only, never on an earlier one.  Arithmetic-free: holds for `Float`; the lock-step run with
+consecutive diameters 1 ulp / 2 ulp / 1e-16 apart is what ties the C++ `!=` shortcut to it. -/
+theorem phs_state_is_function_of_current_diameter (cs : List α) (p q : Phs α) (d : α)
+    (h : PhsState.history p cs = some q) :
+    q.setTransverseDiameter d = p.setTransverseDiameter d ∧
+    (∀ q' p', q.setTransverseDiameter d = some q' → p.setTransverseDiameter d = some p' →
+      q' = p' ∧ (∀ u, q'.transform u = p'.transform u) ∧ (∀ x, q'.isIn x = p'.isIn x) ∧
+      (∀ x, q'.isOn x = p'.isOn x) ∧ (∀ x, q'.pathLength x = p'.pathLength x) ∧ q'.measure = p'.measure ∧
+      q'.c = d) := by
+  have e := PhsState.history_then_set cs p q d h
+  refine ⟨e, fun q' p' hq hp => ?_⟩
+  have : q' = p' := Option.some.inj (hq ▸ hp ▸ e)
+  subst this
+  refine ⟨rfl, fun _ => rfl, fun _ => rfl, fun _ => rfl, fun _ => rfl, rfl, ?_⟩
+  rw [PhsState.setTD_eq p q' d hp]
+  rfl
+
+/-- non-vacuity: an empty and a one-call history exist for every object -/
+example (p : Phs α) : PhsState.history p [] = some p := rfl
+end state
 
 /-! ## Non-vacuity of the geometric hypotheses -/
 
